@@ -26,6 +26,8 @@ def main():
         name = os.path.basename(d); prop = name.split("-")[0]
         if args and prop not in args and name not in args:
             continue
+        if json.load(open(os.path.join(d, "meta.json"))).get("obsolete"):
+            continue
         seeds.append((name, prop, d))
     jobs, meta = [], []
     for p in PROPS:
